@@ -129,6 +129,9 @@ def configs(ss):
                                                                          eligibility=lambda sim: sim.diseases.sis.infected.uids.union(sim.diseases.sir.infected.uids))),
         # two co-circulating diseases transmitted through one mixing pool
         'SIS+SIR pool': lambda seed: ss.Sim(n_agents=200, diseases=[ss.SIS(init_prev=0.2), ss.SIR(init_prev=0.2, dur_inf=5)], networks=ss.MixingPool(beta=ss.beta(0.5), contacts=ss.poisson(3)), demographics=dem(), dur=12, rand_seed=seed, verbose=0),
+        # unborn children of women who die are requested to die after the resolution phase of the step (Pregnancy.finish_step): they too end up in no compartment
+        'SIR+pregnancy-neonatal-deaths': lambda seed: ss.Sim(n_agents=300, diseases=ss.SIR(init_prev=0.1, beta=0.1, p_death=0.1), networks=ss.RandomNet(),
+                                                             demographics=[ss.Pregnancy(fertility_rate=300, p_neonatal_death=ss.bernoulli(p=1.0)), ss.Deaths(death_rate=150)], dur=5, dt=0.25, rand_seed=seed, verbose=0),
         'SIR+SIS': lambda seed: ss.Sim(n_agents=120, diseases=[ss.SIR(init_prev=0.1, p_death=0.3, beta=0.2), ss.SIS(init_prev=0.1, beta=0.2)], networks=ss.RandomNet(), demographics=dem(), dur=10, rand_seed=seed, verbose=0),
     }
     return cf
@@ -164,6 +167,11 @@ def make_probe(ss):
                     if sp['dies']:
                         bad = au[(~alive) & (cnt != 0)]
                         if len(bad): self.problems.append((ti, dis.name, f'agent {int(bad[0])} died but still holds a compartment flag'))
+                        # ... also after removal: every identifier ever issued whose agent is dead holds no compartment
+                        allu = np.arange(n); dead_all = ~np.asarray(ppl.alive.raw[:n], dtype=bool)
+                        cnt_all = sum(F[f][:n].astype(int) for f in sp['part'])
+                        bad = allu[dead_all & (cnt_all != 0)]
+                        if len(bad): self.problems.append((ti, dis.name, f'agent {int(bad[0])} is dead (and removed) but still holds the compartment flag ' + ', '.join(f for f in sp['part'] if F[f][bad[0]])))
                     comp = np.full(n, -1)
                     for i, f in enumerate(sp['part']): comp[F[f]] = i
                     prev = self.prev.get(dis.name)
